@@ -8,7 +8,7 @@ total=0; caught=0; missed=""
 for d in seeded/${pat}*/; do
   id=$(basename "$d")
   prop=$(python3 -c "import json;print(json.load(open('$d/meta.json'))['breaks_property'])")
-  out=$(./seedtest.sh "$d/patch.diff" "$prop" 2>&1)
+  out=$(./seedtest.sh "$(pwd)/$d/patch.diff" "$prop" 2>&1)
   total=$((total+1))
   if echo "$out" | grep -q "VIOLATION property=$prop"; then
     caught=$((caught+1)); echo "$id: caught  ($(echo "$out" | grep '^check' | sed 's/.*theorems/theorems/'))"
